@@ -64,7 +64,7 @@ def counter_discipline(P, R):
             # writes through memset/memcpy of whole requests would zero the counters
         for s in f.calls():
             if s.ev.get('callee') in ('memset', 'memcpy') and s.ev['args'] and is_var(s.ev['args'][0]) \
-                    and s.ev['args'][0].get('t', '').startswith('struct iauth_request *'):
+                    and s.ev['args'][0].get('t', '').replace('const ', '').startswith('struct iauth_request *'):
                 R.ob('C03.WMC.1', False, s, 'a whole request is overwritten by %s' % s.ev['callee'], key='bulk-request')
     R.floor('C03.WMC.1', 5, 'stores to the hold counters')
 
@@ -76,7 +76,7 @@ def timer(P, R):
     for f in P.fns.values():
         for s in f.calls('event_new'):
             a = s.ev['args']
-            if len(a) >= 5 and a[3].get('k') == 'func' and a[4].get('t', '').startswith('struct iauth_request'):
+            if len(a) >= 5 and a[3].get('k') == 'func' and a[4].get('t', '').replace('const ', '').startswith('struct iauth_request'):
                 timers.append((s, P.direct_target(f, a[3]['name'])))
     R.ob('C03.MPT.1', len(timers) >= 1, timers[0][0] if timers else core.sender(P), 'a per-request timer is created with the request as its datum', key='timer-created')
     for s, cb in timers:
@@ -90,7 +90,7 @@ def timer(P, R):
             continue
         reqv = None
         for t in cb.sites():
-            if t.ev['k'] == 'decl' and is_var(t.ev.get('init')) and t.ev['init']['name'] in cb.params and t.ev.get('t', '').startswith('struct iauth_request'):
+            if t.ev['k'] == 'decl' and is_var(t.ev.get('init')) and t.ev['init']['name'] in cb.params and t.ev.get('t', '').replace('const ', '').startswith('struct iauth_request'):
                 reqv = t.ev['var']
 
         def to_gate(t):
